@@ -703,20 +703,59 @@ CONTEXTS_V1 = [
 ]
 
 
-def pump(rng, atoms):
+def pump(rng, atoms, leads=()):
     a = rng.choice(atoms)
     n = rng.choice([30, 40, 60])
     p = a * n
     if rng.random() < 0.3:
         p = p + rng.choice(atoms) * rng.choice([1, 20])
-    return p + rng.choice(BREAKERS)
+    p = p + rng.choice(BREAKERS)
+    r = rng.random()
+    if leads and r < 0.5:
+        # what gets a matcher INTO the flagged repeat (read off the regex: e.g. the opening quote), then the pumped body
+        lead, body = rng.choice(leads)
+        return lead + body * n + rng.choice(BREAKERS)
+    if r < 0.75:
+        # an opening delimiter in front (never closed, or closed at the very end): the rest of the line is what a string matcher chews on
+        return rng.choice(['"{p}', "'{p}", '"{p}"', "'{p}'", '"""{p}', "'''{p}", '("{p}', '$x = "{p}', '#{p}', '{{{p}']).replace("{p}", p)
+    return p
 
 
-def gen_pump_case(rng, extra_atoms=()):
+CONTEXTS_V1 += [
+    "define flow a\n  user x\n  bot {p}\n",
+    "define flow a\n  bot y {p}\n",
+    "define flow a\n  user {p}\n  bot y\n",
+    "define flow a\n  if $x == {p}\n    bot y\n",
+    "define flow a\n  when user {p}\n    bot y\n",
+    "define subflow {p}\n  bot y\n",
+    "define bot {p}\n  \"hi\"\n",
+    "define flow a\n  bot y with {p}\n",
+    "define flow a\n  set $x = {p}\n",
+    "define flow a\n  execute f({p})\n",
+    "define flow a\n  label {p}\n",
+    "define flow a\n  event {p}\n",
+    "define flow a\n  user x\n  bot y\n    {p}\n",
+    "define flow a\n  do {p}\n",
+    "define extension flow {p}\n  user x\n",
+]
+CONTEXTS_V2 += [
+    "flow a\n  bot say {p}\n",
+    "flow a\n  match Ev(text={p})\n",
+    "flow a\n  if $x == {p}\n    pass\n",
+    "flow a\n  when user said {p}\n    pass\n",
+    "flow a\n  $v = ...{p}\n",
+    "@meta({p})\nflow a\n  pass\n",
+    "flow a\n  log {p}\n",
+    "flow a\n  {p}\n  pass\n",
+]
+
+
+def gen_pump_case(rng, leads=()):
     """a line made of one short text repeated 30-60 times and a character that ends it (what makes a nested quantifier over that text
-    try every split), in every kind of place a line can stand; 2.x -> `str` literal case (CPU-limited load), 1.0 -> `err` text case"""
-    atoms = list(extra_atoms) * 3 + ATOMS if extra_atoms else ATOMS
-    p = pump(rng, atoms)
-    if rng.random() < 0.7:
+    try every split), in every kind of place a line can stand; `leads` = [lead, body] pairs read off the regexes the static scan
+    flagged.  2.x and 1.0 -> `str` literal case (CPU-limited load)"""
+    atoms = [b for _, b in leads] * 3 + ATOMS if leads else ATOMS
+    p = pump(rng, atoms, leads)
+    if rng.random() < 0.6:
         return {"kind": "str", "text": rng.choice(CONTEXTS_V2).replace("{p}", p), "vtext": None, "pump": True}
     return {"kind": "str", "text": rng.choice(CONTEXTS_V1).replace("{p}", p), "vtext": None, "pump": True, "version": "1.0"}
